@@ -369,52 +369,7 @@ func Main(cfg *Config) {
 		}
 		pool[i] = w
 	}
-	var mu sync.Mutex
 	caseTimeout := 120 * time.Second
-
-	// runJobs runs jobs on the pool; returns results in order (nil for a dead worker's job).
-	runJobs := func(space string, jobs []*job) []*shardResult {
-		results := make([]*shardResult, len(jobs))
-		idx := make(chan int, len(jobs))
-		for i := range jobs {
-			idx <- i
-		}
-		close(idx)
-		var wg sync.WaitGroup
-		for wi := range pool {
-			wg.Add(1)
-			go func(wi int) {
-				defer wg.Done()
-				for i := range idx {
-					if !deadline.IsZero() && time.Now().After(deadline) {
-						continue // leaves results[i] nil and not crashed: incomplete
-					}
-					w := pool[wi]
-					r, err := w.do(jobs[i], caseTimeout)
-					if err != nil {
-						cr := crash{Space: space, Choices: w.lastCase(), Stderr: err.Error() + "\n" + w.stderrTail()}
-						w.cmd.Process.Kill()
-						w.cmd.Wait()
-						mu.Lock()
-						agg.Crashes = append(agg.Crashes, cr)
-						mu.Unlock()
-						nwk, err2 := startWorker(wi+1000*len(agg.Crashes), scratch)
-						if err2 != nil {
-							mu.Lock()
-							harnessErrs = append(harnessErrs, "cannot restart worker: "+err2.Error())
-							mu.Unlock()
-							return
-						}
-						pool[wi] = nwk
-						continue
-					}
-					results[i] = r
-				}
-			}(wi)
-		}
-		wg.Wait()
-		return results
-	}
 
 	for _, sp := range cfg.Spaces {
 		bound := sp.Bound(tier)
@@ -424,70 +379,96 @@ func Main(cfg *Config) {
 		if !deadline.IsZero() {
 			dl = deadline.UnixNano()
 		}
-		spw := cfg.ShardsPerWorker
-		if spw == 0 {
-			spw = 8
-		}
-		maxLevel := cfg.MaxExpandLevel
-		if maxLevel == 0 {
-			maxLevel = 3
-		}
-		shards := [][]PrefixEntry{nil}
-		for level := 0; level < maxLevel && len(shards) < spw*nw; level++ {
-			var jobs []*job
-			for _, p := range shards {
-				jobs = append(jobs, &job{Op: "expand", Space: sp.Name, Prefix: p, Bound: bound, Deadline: dl, Tier: tier})
-			}
-			res := runJobs(sp.Name, jobs)
-			var next [][]PrefixEntry
-			for i, r := range res {
-				if r == nil {
-					sa.Complete = false
-					continue
+		// dynamic work queue: a job explores a subtree depth first and, after MaxExecs executions,
+		// hands the unexplored frontier back; the explored set does not depend on the cut.
+		var qmu sync.Mutex
+		qcond := sync.NewCond(&qmu)
+		pending := [][]PrefixEntry{nil}
+		inflight := 0
+		stop := false
+		var wg sync.WaitGroup
+		for wi := range pool {
+			wg.Add(1)
+			go func(wi int) {
+				defer wg.Done()
+				for {
+					qmu.Lock()
+					for len(pending) == 0 && inflight > 0 && !stop {
+						qcond.Wait()
+					}
+					if stop || len(pending) == 0 {
+						qmu.Unlock()
+						qcond.Broadcast()
+						return
+					}
+					if !deadline.IsZero() && time.Now().After(deadline) {
+						stop = true
+						sa.Complete = false
+						qmu.Unlock()
+						qcond.Broadcast()
+						return
+					}
+					// take from the front (shallow, large subtrees first)
+					pre := pending[0]
+					pending = pending[1:]
+					inflight++
+					maxExecs := int64(4000)
+					if len(pending) < 4*nw {
+						maxExecs = 48
+					}
+					if sa.Shards == 0 {
+						maxExecs = 1
+					}
+					sa.Shards++
+					qmu.Unlock()
+
+					w := pool[wi]
+					j := &job{Op: "subtree", Space: sp.Name, Prefix: pre, Bound: bound, Deadline: dl, Tier: tier, MaxExecs: maxExecs}
+					r, err := w.do(j, caseTimeout)
+					qmu.Lock()
+					inflight--
+					if err != nil {
+						cr := crash{Space: sp.Name, Choices: w.lastCase(), Stderr: err.Error() + "\n" + w.stderrTail()}
+						w.cmd.Process.Kill()
+						w.cmd.Wait()
+						agg.Crashes = append(agg.Crashes, cr)
+						sa.Complete = false
+						nwk, err2 := startWorker(wi+1000*len(agg.Crashes), scratch)
+						if err2 != nil {
+							harnessErrs = append(harnessErrs, "cannot restart worker: "+err2.Error())
+							stop = true
+							qmu.Unlock()
+							qcond.Broadcast()
+							return
+						}
+						pool[wi] = nwk
+						if len(agg.Crashes) > 20 {
+							stop = true
+						}
+						qmu.Unlock()
+						qcond.Broadcast()
+						continue
+					}
+					if r.HarnessErr != "" {
+						harnessErrs = append(harnessErrs, sp.Name+": "+r.HarnessErr)
+						stop = true
+						qmu.Unlock()
+						qcond.Broadcast()
+						return
+					}
+					agg.merge(sp.Name, r)
+					// frontier goes to the back, deepest (last pushed) first, to keep the queue short
+					for i := len(r.Children) - 1; i >= 0; i-- {
+						pending = append(pending, r.Children[i])
+					}
+					qmu.Unlock()
+					qcond.Broadcast()
 				}
-				if r.HarnessErr != "" {
-					harnessErrs = append(harnessErrs, sp.Name+": "+r.HarnessErr)
-					continue
-				}
-				_ = i
-				agg.merge(sp.Name, r)
-				next = append(next, r.Children...)
-			}
-			shards = next
-			if len(shards) == 0 {
-				break
-			}
+			}(wi)
 		}
-		if len(harnessErrs) > 0 {
-			break
-		}
-		// rotate shard order by seed (the explored set is seed independent)
-		if seed != 0 && len(shards) > 1 {
-			k := seed % len(shards)
-			if k < 0 {
-				k = -k
-			}
-			shards = append(shards[k:], shards[:k]...)
-		}
-		sa.Shards = len(shards)
-		var jobs []*job
-		for _, p := range shards {
-			jobs = append(jobs, &job{Op: "subtree", Space: sp.Name, Prefix: p, Bound: bound, Deadline: dl, Tier: tier})
-		}
-		res := runJobs(sp.Name, jobs)
-		for _, r := range res {
-			if r == nil {
-				sa.Complete = false
-				continue
-			}
-			if r.HarnessErr != "" {
-				harnessErrs = append(harnessErrs, sp.Name+": "+r.HarnessErr)
-				continue
-			}
-			agg.merge(sp.Name, r)
-			if !r.Complete {
-				sa.Complete = false
-			}
+		wg.Wait()
+		if len(pending) > 0 {
+			sa.Complete = false
 		}
 		if !sa.Complete {
 			agg.Incomplete = append(agg.Incomplete, sp.Name)
